@@ -3,13 +3,15 @@
 Require Extraction.
 Require Import ExtrOcamlBasic.
 From Coq Require Import NArith ZArith List.
-From VT Require Import Gen.Constants Base.Outcome Model.Cache Model.BBox.
+From VT Require Import Gen.Constants Base.Outcome Model.Cache Model.BBox Model.Pipeline.
 Extraction Blacklist String List Nat Int Char.
 Set Extraction KeepSingleton.
 Extraction "../ocaml/model.ml"
   N.add N.mul N.div_eucl N.of_nat N.to_nat N.eqb N.leb N.ltb
   Z.add Z.mul Z.div_eucl Z.of_N Z.to_N Z.opp
   Constants.cache_median_variant Constants.bbox_add_border_variant Constants.bbox_index_variant
+  Constants.conv_lookup_inverse Constants.conv_range_guard Constants.conv_selection_guard
+  Pipeline.denote Pipeline.look Pipeline.strm Pipeline.cov
   Cache.run Cache.empty
   BBox.new BBox.new_full BBox.new_empty BBox.is_empty BBox.width BBox.height BBox.count_tiles BBox.contains2 BBox.contains3
   BBox.set_empty BBox.include_coord BBox.add_border BBox.include_bbox BBox.intersect_bbox BBox.overlaps_bbox
